@@ -50,10 +50,19 @@ type vc17Srv struct {
 	tcpSeen int
 	conns   map[net.Conn]struct{}
 
-	up  bool
-	udp *net.UDPConn
-	tcp *net.TCPListener
-	wg  sync.WaitGroup
+	// pairing makes a TCP request wait (briefly) for a second one, so that
+	// simultaneous queries really overlap and use separate connections.
+	pairing bool
+	pairCh  chan struct{}
+
+	// craftErr is set when a scripted reply could not be built: harness error.
+	craftErr error
+
+	up     bool
+	udp    *net.UDPConn
+	tcp    *net.TCPListener
+	wg     sync.WaitGroup
+	connWg sync.WaitGroup
 }
 
 func (s *vc17Srv) addr() netip.AddrPort { return netip.AddrPortFrom(s.ip, s.port) }
@@ -180,12 +189,66 @@ func (s *vc17Srv) serveTCP(l *net.TCPListener) {
 		s.mu.Unlock()
 
 		s.wg.Add(1)
+		s.connWg.Add(1)
 		go s.serveTCPConn(c)
 	}
 }
 
+// vc17PairWait bounds how long a request waits for a simultaneous one.  It
+// only affects how often connections overlap, never a verdict.
+const vc17PairWait = 10 * time.Millisecond
+
+func (s *vc17Srv) setPairing(on bool) {
+	s.mu.Lock()
+	defer s.mu.Unlock()
+
+	s.pairing = on
+}
+
+func (s *vc17Srv) pairWait() {
+	s.mu.Lock()
+	if !s.pairing {
+		s.mu.Unlock()
+
+		return
+	}
+
+	if ch := s.pairCh; ch != nil {
+		s.pairCh = nil
+		close(ch)
+		s.mu.Unlock()
+
+		return
+	}
+
+	ch := make(chan struct{})
+	s.pairCh = ch
+	s.mu.Unlock()
+
+	select {
+	case <-ch:
+	case <-time.After(vc17PairWait):
+		s.mu.Lock()
+		if s.pairCh == ch {
+			s.pairCh = nil
+		}
+		s.mu.Unlock()
+	}
+}
+
+// dropConns closes every established TCP connection but keeps listening.
+func (s *vc17Srv) dropConns() {
+	s.mu.Lock()
+	for c := range s.conns {
+		_ = c.Close()
+	}
+	s.mu.Unlock()
+	s.connWg.Wait()
+}
+
 func (s *vc17Srv) serveTCPConn(c net.Conn) {
 	defer s.wg.Done()
+	defer s.connWg.Done()
 	defer func() {
 		_ = c.Close()
 		s.mu.Lock()
@@ -203,6 +266,8 @@ func (s *vc17Srv) serveTCPConn(c net.Conn) {
 		if _, err := io.ReadFull(c, req); err != nil {
 			return
 		}
+
+		s.pairWait()
 
 		s.mu.Lock()
 		s.tcpSeen++
@@ -238,6 +303,11 @@ type vc17Spec struct {
 	AltType uint16 `json:"alt_type,omitempty"`
 	Garbage []byte `json:"garbage,omitempty"`
 	Cut     int    `json:"cut,omitempty"`
+	// Bare: no records at all (no answer, no responder tag); the sender is
+	// then marked by the AA bit (set by UDP, clear by TCP).
+	Bare bool `json:"bare,omitempty"`
+	// OPT: a bare reply still echoes an OPT record if the query had one.
+	OPT bool `json:"opt,omitempty"`
 }
 
 // valid reports whether the reply matches the query in ID, question name
@@ -264,22 +334,38 @@ func vc17FlipCase(s string) string {
 // vc17Craft builds the bytes of the scripted reply to req.  who is put into
 // the reply so that the accepted message can be traced to its sender.
 func vc17Craft(s vc17Spec, reqBytes []byte, who string) (out []byte, closeConn bool) {
+	out, closeConn, _ = vc17CraftErr(s, reqBytes, who)
+
+	return out, closeConn
+}
+
+// vc17CraftErr is vc17Craft that also reports a reply that could not be built
+// (a harness error, never a verdict).
+func vc17CraftErr(s vc17Spec, reqBytes []byte, who string) (out []byte, closeConn bool, err error) {
 	req := &dns.Msg{}
-	if err := req.Unpack(reqBytes); err != nil || len(req.Question) != 1 {
-		return nil, true
+	if err = req.Unpack(reqBytes); err != nil || len(req.Question) != 1 {
+		return nil, true, fmt.Errorf("server got a malformed request: %v", err)
 	}
 
 	q := req.Question[0]
 	r := (&dns.Msg{}).SetRcode(req, s.Rcode)
 	r.Truncated = s.TC
-	if !s.TC && s.Rcode == dns.RcodeSuccess && q.Qtype == dns.TypeA {
-		r.Answer = append(r.Answer, &dns.A{
-			Hdr: dns.RR_Header{Name: q.Name, Rrtype: dns.TypeA, Class: dns.ClassINET, Ttl: 10},
-			A:   []byte{192, 0, 2, 7},
-		})
-	}
+	switch {
+	case s.Bare:
+		r.Authoritative = who == "udp"
+		if s.OPT && req.IsEdns0() != nil {
+			r.SetEdns0(1232, false)
+		}
+	default:
+		if !s.TC && s.Rcode == dns.RcodeSuccess && q.Qtype == dns.TypeA {
+			r.Answer = append(r.Answer, &dns.A{
+				Hdr: dns.RR_Header{Name: q.Name, Rrtype: dns.TypeA, Class: dns.ClassINET, Ttl: 10},
+				A:   []byte{192, 0, 2, 7},
+			})
+		}
 
-	vc17Tag(r, who)
+		vc17Tag(r, who)
+	}
 
 	switch s.Kind {
 	case "exact":
@@ -301,24 +387,27 @@ func vc17Craft(s vc17Spec, reqBytes []byte, who string) (out []byte, closeConn b
 			binary.BigEndian.PutUint16(g, req.Id)
 		}
 
-		return g, false
+		return g, false, nil
 	case "short":
-		b, _ := r.Pack()
+		b, perr := r.Pack()
+		if perr != nil {
+			return nil, true, perr
+		}
 
-		return b[:min(s.Cut, len(b))], false
+		return b[:min(s.Cut, len(b))], false, nil
 	case "close":
-		return nil, true
+		return nil, true, nil
 	}
 
 	b, err := r.Pack()
 	if err != nil {
-		return nil, true
+		return nil, true, err
 	}
 
-	return b, false
+	return b, false, nil
 }
 
-var vc17AcceptNames = []string{"example.org.", "WwW.Example.ORG.", "a.B.c.verif.test.", "x."}
+var vc17AcceptNames = []string{"example.org.", "WwW.Example.ORG.", "a.B.c.verif.test.", "x.", ".", ".", "a.", "Z."}
 
 func vc17DrawSpec(t *rapid.T, label string, name string, qtype uint16, tcp bool) (s vc17Spec) {
 	kinds := []string{"exact", "exact", "exact", "case", "wrongid", "othername", "othertype", "twoq", "zeroq", "garbage", "short"}
@@ -332,15 +421,27 @@ func vc17DrawSpec(t *rapid.T, label string, name string, qtype uint16, tcp bool)
 		s.Rcode = rapid.SampledFrom([]int{dns.RcodeServerFailure, dns.RcodeNameError, dns.RcodeRefused}).Draw(t, label+"Rcode")
 	}
 
+	if s.Bare = rapid.Bool().Draw(t, label+"Bare"); s.Bare {
+		// Replies without any record, with every header rcode: the smallest
+		// messages an upstream can send (17 octets for the root name).
+		s.Rcode = rapid.IntRange(0, 15).Draw(t, label+"BareRcode")
+		s.OPT = rapid.Bool().Draw(t, label+"OPT")
+	}
+
 	switch s.Kind {
 	case "wrongid":
 		s.IDMask = rapid.OneOf(rapid.SampledFrom([]uint16{1, 0x8000, 0x00ff, 0xff00, 0xffff}), rapid.Uint16Range(1, 0xffff)).Draw(t, label+"IDMask")
 	case "othername":
 		// A name of the same length differing in one non-case bit, a
 		// parent, a child, or an unrelated name.
-		b := []byte(name)
-		b[0] ^= 0x01
-		s.AltName = rapid.SampledFrom([]string{string(b), "sub." + name, "other.example.", "."}).Draw(t, label+"AltName")
+		alts := []string{"other.example.", ".", "a."}
+		if name != "." {
+			b := []byte(name)
+			b[0] ^= 0x01
+			alts = append(alts, string(b), "sub."+name)
+		}
+
+		s.AltName = rapid.SampledFrom(alts).Draw(t, label+"AltName")
 		if strings.EqualFold(s.AltName, name) {
 			s.AltName = "other.example."
 		}
@@ -373,10 +474,11 @@ const vc17Timeout = 5 * time.Second
 
 func TestVerifC17Accept(t *testing.T) {
 	st := vstat.New("C17", "forward.accept",
-		"rapid (query name/type/ID, upstream network any/udp/tcp, one scripted UDP reply and one scripted TCP reply from {exact, case-only name difference, wrong ID, other name, other type, 2 questions, 0 questions, garbage, short, close} x TC x rcode) through a real UpstreamPlain against loopback servers; non-trivial = at least one consulted reply is not the exact one, distinct by (network, both replies)",
+		"rapid (query name incl. the root and one-letter names / type / ID / EDNS or not, upstream network any/udp/tcp, one scripted UDP reply and one scripted TCP reply from {exact, case-only name difference, wrong ID, other name, other type, 2 questions, 0 questions, garbage, short, close} x TC x rcode x {with records, without any record and every header rcode, with or without OPT}) through a real UpstreamPlain against loopback servers; non-trivial = at least one consulted reply is not the exact one, distinct by (network, both replies)",
 		"udp-valid-accepted", "udp-case-only-accepted", "udp-wrongid-rejected", "udp-othername-rejected", "udp-othertype-rejected",
 		"udp-twoq-rejected", "tc-then-tcp-valid", "tc-then-tcp-invalid", "tcp-wrongid-rejected", "tcp-othername-rejected",
-		"tcp-othertype-rejected", "garbage-not-accepted")
+		"tcp-othertype-rejected", "garbage-not-accepted", "reply-of-minimal-size-accepted",
+		"reply-of-minimal-size-accepted-over-udp", "reply-of-minimal-size-accepted-over-tcp")
 	st.Finish(t)
 
 	rapid.Check(t, func(t *rapid.T) {
@@ -394,12 +496,25 @@ func TestVerifC17Accept(t *testing.T) {
 		}
 		defer srv.close()
 
+		var sentMu sync.Mutex
+		sentLen := map[string]int{}
+		var craftErr error
 		srv.setReply(func(network string, req []byte) ([]byte, bool) {
-			if network == "udp" {
-				return vc17Craft(us, req, "udp")
+			spec := us
+			if network == "tcp" {
+				spec = cs
 			}
 
-			return vc17Craft(cs, req, "tcp")
+			out, closeConn, err := vc17CraftErr(spec, req, network)
+			sentMu.Lock()
+			defer sentMu.Unlock()
+
+			sentLen[network] = len(out)
+			if err != nil {
+				craftErr = err
+			}
+
+			return out, closeConn
 		})
 
 		u := NewUpstreamPlain(&UpstreamPlainConfig{Network: nw, Address: srv.addr(), Timeout: vc17Timeout})
@@ -409,16 +524,28 @@ func TestVerifC17Accept(t *testing.T) {
 			MsgHdr:   dns.MsgHdr{Id: id, RecursionDesired: true},
 			Question: []dns.Question{{Name: name, Qtype: qtype, Qclass: dns.ClassINET}},
 		}
+		edns := rapid.Bool().Draw(t, "edns")
+		if edns {
+			req.SetEdns0(rapid.SampledFrom([]uint16{512, 1232, 4096}).Draw(t, "udpSize"), rapid.Bool().Draw(t, "do"))
+		}
 
 		start := time.Now()
 		resp, _, err := u.Exchange(context.Background(), req)
 		took := time.Since(start)
 		udpSeen, tcpSeen := srv.seen()
 
+		sentMu.Lock()
+		cerr, udpLen, tcpLen := craftErr, sentLen["udp"], sentLen["tcp"]
+		sentMu.Unlock()
+		if cerr != nil {
+			fmt.Println("VERIF-INCONCLUSIVE: harness could not build a scripted reply: " + cerr.Error())
+			t.Fatalf("harness: %v (udp %+v tcp %+v name %q)", cerr, us, cs, name)
+		}
+
 		fail := func(format string, args ...any) {
 			msg := fmt.Sprintf(format, args...)
-			full := fmt.Sprintf("%s\nquery %q type %d id %d network %q; udp reply %+v; tcp reply %+v; err=%v; accepted from %q; udp requests %d, tcp requests %d",
-				msg, name, qtype, id, nw, us, cs, err, vc17TagOf(resp), udpSeen, tcpSeen)
+			full := fmt.Sprintf("%s\nquery %q type %d id %d edns %v network %q; udp reply %+v (%d octets); tcp reply %+v (%d octets); err=%v; accepted from %q; udp requests %d, tcp requests %d",
+				msg, name, qtype, id, edns, nw, us, udpLen, cs, tcpLen, err, vc17SenderOf(resp), udpSeen, tcpSeen)
 			if took > vc17Timeout/2 {
 				fmt.Println("VERIF-INCONCLUSIVE: an exchange took " + took.String() + "; " + full)
 			}
@@ -433,7 +560,7 @@ func TestVerifC17Accept(t *testing.T) {
 
 		from := ""
 		if err == nil {
-			from = vc17TagOf(resp)
+			from = vc17SenderOf(resp)
 			if from == "udp" && !us.valid() || from == "tcp" && !cs.valid() {
 				fail("the %s reply is not valid for the query but was accepted", from)
 			}
@@ -516,6 +643,20 @@ func TestVerifC17Accept(t *testing.T) {
 			}
 		}
 
+		if err == nil {
+			n := tcpLen
+			if from == "udp" {
+				n = udpLen
+			}
+
+			switch {
+			case n == minDNSMessageSize:
+				classes = append(classes, "reply-of-minimal-size-accepted", "reply-of-minimal-size-accepted-over-"+from)
+			case n <= minDNSMessageSize+16:
+				classes = append(classes, fmt.Sprintf("reply-of-%d-octets-accepted", n))
+			}
+		}
+
 		if us.Kind == "garbage" && nw != NetworkTCP || cs.Kind == "garbage" && tcpSeen > 0 {
 			classes = append(classes, "garbage-not-accepted")
 		}
@@ -530,6 +671,24 @@ func TestVerifC17Accept(t *testing.T) {
 			st.Sample(map[string]any{"network": string(nw), "udp": us, "tcp": cs, "accepted_from": from, "error": fmt.Sprint(err)})
 		}
 	})
+}
+
+// vc17SenderOf tells which scripted reply a message is: by its responder tag,
+// or, for a reply without records, by the AA bit.
+func vc17SenderOf(resp *dns.Msg) string {
+	if resp == nil {
+		return ""
+	}
+
+	if tag := vc17TagOf(resp); tag != "" {
+		return tag
+	}
+
+	if resp.Authoritative {
+		return "udp"
+	}
+
+	return "tcp"
 }
 
 func vc17Verdict(s vc17Spec) string {
@@ -553,14 +712,20 @@ const (
 	vc17SockWrongID
 	vc17SockOtherName
 	vc17SockOtherType
+	// vc17SockUpTC: up, but every UDP reply is truncated, which sends clients
+	// that may use TCP there.
+	vc17SockUpTC
 	vc17SockModeCount
 )
 
-var vc17SockModeNames = [...]string{"up", "servfail", "closed", "wrong-id", "other-name", "other-type"}
+// vc17SockDownLast is the last of the modes 1..n in which a probe fails.
+const vc17SockDownLast = vc17SockOtherType
+
+var vc17SockModeNames = [...]string{"up", "servfail", "closed", "wrong-id", "other-name", "other-type", "up-tc"}
 
 func (m vc17SockMode) cat() vc17Cat {
 	switch m {
-	case vc17SockUp:
+	case vc17SockUp, vc17SockUpTC:
 		return vc17CatReplyOK
 	case vc17SockServfail:
 		return vc17CatReplyRcode
@@ -571,8 +736,10 @@ func (m vc17SockMode) cat() vc17Cat {
 	}
 }
 
-func (m vc17SockMode) spec() vc17Spec {
+func (m vc17SockMode) spec(network string) vc17Spec {
 	switch m {
+	case vc17SockUpTC:
+		return vc17Spec{Kind: "exact", TC: network == "udp"}
 	case vc17SockServfail:
 		return vc17Spec{Kind: "exact", Rcode: dns.RcodeServerFailure}
 	case vc17SockWrongID:
@@ -598,6 +765,29 @@ type vc17SockNode struct {
 	idx  int
 	mode vc17SockMode
 	nw   Network
+
+	// deadIdle is the number of idle pooled TCP connections of the client
+	// that the server has closed.
+	deadIdle int
+}
+
+// usesTCP reports whether a query to the node ends up on TCP.
+func (n *vc17SockNode) usesTCP() bool {
+	return n.nw == NetworkTCP || n.nw == NetworkAny && n.mode == vc17SockUpTC
+}
+
+// idleTCP is the number of TCP connections the client keeps to the server.
+// Outside an exchange all of them sit idle in the client's pool; it is read on
+// the server side because the pool does not export it.
+func (n *vc17SockNode) idleTCP() int {
+	if !n.srv.up {
+		return 0
+	}
+
+	n.srv.mu.Lock()
+	defer n.srv.mu.Unlock()
+
+	return len(n.srv.conns)
 }
 
 func (n *vc17SockNode) vc17Name() string { return n.name }
@@ -615,13 +805,17 @@ func (n *vc17SockNode) Exchange(ctx context.Context, req *dns.Msg) (resp *dns.Ms
 func (n *vc17SockNode) setMode(m vc17SockMode) (err error) {
 	n.mode = m
 	if m == vc17SockClosed {
+		if n.srv.up {
+			n.deadIdle = n.idleTCP()
+		}
+
 		n.srv.close()
 
 		return nil
 	}
 
-	spec, who := m.spec(), n.name
-	n.srv.setReply(func(_ string, req []byte) ([]byte, bool) { return vc17Craft(spec, req, who) })
+	who := n.name
+	n.srv.setReply(func(network string, req []byte) ([]byte, bool) { return vc17Craft(m.spec(network), req, who) })
 	if !n.srv.up {
 		return n.srv.open()
 	}
@@ -629,12 +823,24 @@ func (n *vc17SockNode) setMode(m vc17SockMode) (err error) {
 	return nil
 }
 
+// dropConns makes the server close its established connections while staying
+// up.
+func (n *vc17SockNode) dropConns() {
+	if !n.srv.up {
+		return
+	}
+
+	n.deadIdle = n.idleTCP()
+	n.srv.dropConns()
+}
+
 func TestVerifC17Sockets(t *testing.T) {
 	st := vstat.New("C17", "forward.sockets",
-		"rapid histories (1-2 mains, 0-2 fallbacks, each a real UpstreamPlain (any/udp/tcp) built by NewHandler to its own loopback UDP+TCP server; construction with HealthcheckInitDuration 0 or >0 against servers that are already up/down/answering wrongly; ops: query, health-check round, server switch among up / SERVFAIL / sockets closed / wrong-ID / other-name / other-type replies, clock step around the backoff) against the same reference state machine; non-trivial = a health-check round finds a previously failed main up again, distinct by the whole history",
+		"rapid histories (1-2 mains, 0-2 fallbacks, each a real UpstreamPlain (any/udp/tcp) built by NewHandler to its own loopback UDP+TCP server; construction with HealthcheckInitDuration 0 or >0 against servers that are already up/down/answering wrongly; ops: query, burst of 2-4 simultaneous queries, health-check round, server drops its established TCP connections but stays up, server switch among up / up with truncated UDP replies / SERVFAIL / sockets closed / wrong-ID / other-name / other-type replies, clock step around the backoff) against the same reference state machine; non-trivial = a health-check round finds a previously failed main up again, distinct by the whole history",
 		"recovered-after-backoff", "blocked-in-backoff-while-up", "neterr-fallback-ok", "neterr-fallback-fails",
 		"all-down-query-to-fallback", "plainerr-no-fallback", "no-fallbacks-refresh-with-down-main",
-		"init-probe-failed-no-fallbacks", "init-probe-failed-with-fallbacks")
+		"init-probe-failed-no-fallbacks", "init-probe-failed-with-fallbacks",
+		"query-after-established-conns-dropped-with-2+-idle")
 	st.Finish(t)
 
 	ctx := context.Background()
@@ -675,7 +881,7 @@ func TestVerifC17Sockets(t *testing.T) {
 				t.Skipf("binding loopback sockets: %v", err)
 			}
 
-			nw := rapid.SampledFrom([]Network{NetworkAny, NetworkAny, NetworkUDP, NetworkTCP}).Draw(t, "network")
+			nw := rapid.SampledFrom([]Network{NetworkAny, NetworkAny, NetworkUDP, NetworkTCP, NetworkTCP}).Draw(t, "network")
 			n.nw = nw
 			conf := &UpstreamPlainConfig{Network: nw, Address: n.srv.addr(), Timeout: vc17Timeout}
 			if n.main {
@@ -696,7 +902,7 @@ func TestVerifC17Sockets(t *testing.T) {
 			n.env = e
 			m := vc17SockUp
 			if rapid.Bool().Draw(t, "initiallyDown") {
-				m = vc17SockMode(rapid.IntRange(1, int(vc17SockModeCount)-1).Draw(t, "initMode"))
+				m = vc17SockMode(rapid.IntRange(1, int(vc17SockDownLast)).Draw(t, "initMode"))
 				initDown = initDown || n.main
 			}
 
@@ -791,6 +997,50 @@ func TestVerifC17Sockets(t *testing.T) {
 			e.query(ctx, fail, name, qt, rapid.Uint16().Draw(t, "id"))
 		}
 
+		e.onMainAsked = func(idx int) {
+			n := nodes[idx]
+			if !n.usesTCP() || !n.srv.up {
+				return
+			}
+
+			if n.mode.cat() == vc17CatReplyOK {
+				switch {
+				case n.deadIdle >= 2:
+					e.class("query-after-established-conns-dropped-with-2+-idle")
+				case n.deadIdle == 1:
+					e.class("query-after-established-conns-dropped-with-1-idle")
+				}
+			}
+
+			n.deadIdle = max(0, n.deadIdle-1)
+		}
+
+		doBurst := func() {
+			opStart = time.Now()
+			k := rapid.IntRange(2, 4).Draw(t, "burst")
+			ids := make([]uint16, k)
+			for i := range ids {
+				ids[i] = rapid.Uint16().Draw(t, "id")
+			}
+
+			for _, n := range nodes {
+				n.srv.setPairing(true)
+			}
+
+			e.burst(ctx, fail, rapid.SampledFrom(vc17QTypes).Draw(t, "qtype"), ids)
+			for _, n := range nodes {
+				n.srv.setPairing(false)
+				if n.idleTCP() >= 2 {
+					e.class("two-or-more-idle-tcp-conns")
+				}
+			}
+		}
+
+		doDrop := func(n *vc17SockNode) {
+			fmt.Fprintf(&e.hist, "D%s ", n.name)
+			n.dropConns()
+		}
+
 		eps := 2 * time.Second
 		drawDelta := func() time.Duration {
 			return max(0, rapid.SampledFrom([]time.Duration{0, eps, backoff - eps, backoff, backoff + eps, backoff / 2}).Draw(t, "delta"))
@@ -799,8 +1049,35 @@ func TestVerifC17Sockets(t *testing.T) {
 		nOps := rapid.IntRange(3, 14).Draw(t, "nOps")
 	ops:
 		for range nOps {
-			switch rapid.IntRange(0, 9).Draw(t, "op") {
+			switch rapid.IntRange(0, 13).Draw(t, "op") {
 			case 0, 1, 2:
+				doQuery()
+			case 10:
+				doBurst()
+			case 11:
+				doDrop(rapid.SampledFrom(nodes).Draw(t, "dropOf"))
+			case 12, 13:
+				// Several idle connections to a main that stays up, then the
+				// server drops them; every step is an ordinary checked
+				// operation.
+				n := nodes[rapid.IntRange(0, nMain-1).Draw(t, "poolOf")]
+				m := vc17SockUp
+				if n.nw == NetworkAny {
+					m = vc17SockUpTC
+				}
+
+				if !setMode(n, m) {
+					break ops
+				}
+
+				e.advance(backoff + eps)
+				if !refresh() {
+					break ops
+				}
+
+				doBurst()
+				doDrop(n)
+				doQuery()
 				doQuery()
 			case 3, 4:
 				if !refresh() {
@@ -825,7 +1102,7 @@ func TestVerifC17Sockets(t *testing.T) {
 				e.advance(drawDelta())
 			default:
 				n := nodes[rapid.IntRange(0, nMain-1).Draw(t, "outageOf")]
-				m := vc17SockMode(rapid.IntRange(1, int(vc17SockModeCount)-1).Draw(t, "outageMode"))
+				m := vc17SockMode(rapid.IntRange(1, int(vc17SockDownLast)).Draw(t, "outageMode"))
 				if !setMode(n, m) || !refresh() {
 					break ops
 				}
